@@ -124,6 +124,7 @@ type Explorer struct {
 	nsym     int
 	steps    int
 	covers   map[string]bool
+	revMaps  bool // rt.ReverseMaps: this path iterates maps in reverse insertion order
 	viol     []Violation
 	incl     string // why this path is inconclusive ("" = not)
 	jsonToks []*jsonTok
@@ -565,6 +566,7 @@ func (e *Explorer) runPath(prefix []bool, wantWitness bool) (completed bool, wit
 	e.probe = nil
 	e.prefix, e.pos, e.pc, e.nondets, e.observes, e.nsym, e.steps = prefix, 0, nil, nil, nil, 0, 0
 	e.covers, e.viol, e.incl, e.jsonToks, e.hashToks, e.siblings = map[string]bool{}, nil, "", nil, nil, nil
+	e.revMaps = false
 	e.digests = nil
 	e.asserts, e.assertsS = 0, 0
 	e.loopCnt = map[ssa.Instruction]int{}
